@@ -38,6 +38,9 @@ pub enum Op {
     ImageCheck,
     /// the same operation `n` times in a row
     Repeat { op: Box<Op>, n: u64 },
+    /// the operation acts on the scenario's SECOND sampler (a related or unrelated
+    /// graph living in the same process)
+    Alt(Box<Op>),
 }
 
 impl Op {
@@ -53,6 +56,15 @@ impl Op {
             Op::Aborted { .. } => "aborted_sample",
             Op::ImageCheck => "image",
             Op::Repeat { .. } => "repeat",
+            Op::Alt(o) => o.tag(),
+        }
+    }
+    /// (sampler index, innermost operation) with Alt / Repeat wrappers removed
+    pub fn strip(&self) -> (usize, &Op) {
+        match self {
+            Op::Alt(o) => (1, o.strip().1),
+            Op::Repeat { op, .. } => op.strip(),
+            o => (0, o),
         }
     }
 }
@@ -66,6 +78,9 @@ pub struct Client {
 #[derive(Clone, Debug, PartialEq, Serialize, Deserialize)]
 pub struct Scenario {
     pub spec: GraphSpec,
+    /// optional second sampler of the run
+    #[serde(default)]
+    pub alt: Option<GraphSpec>,
     pub clients: Vec<Client>,
     pub sched: SchedKind,
     pub sched_seed: u64,
@@ -91,7 +106,14 @@ pub struct Env {
 }
 
 pub struct ClientState {
-    pub local: Option<(Arc<dyn Sampler>, bool)>,
+    /// private sampler per environment (index 0 = main graph, 1 = second graph)
+    pub local: Vec<Option<(Arc<dyn Sampler>, bool)>>,
+}
+
+impl ClientState {
+    pub fn new() -> Self {
+        ClientState { local: vec![None, None] }
+    }
 }
 
 #[derive(Clone, Debug)]
@@ -110,15 +132,15 @@ pub struct OpRecord {
     pub trace: Option<Vec<ctx::Ev>>,
 }
 
-fn current2(env: &Env, cs: &ClientState) -> (Arc<dyn Sampler>, bool) {
-    match &cs.local {
+fn current2(env: &Env, cs: &ClientState, e: usize) -> (Arc<dyn Sampler>, bool) {
+    match &cs.local[e] {
         Some(s) => s.clone(),
         None => env.shared.lock().unwrap().clone(),
     }
 }
 
-fn current(env: &Env, cs: &ClientState) -> Arc<dyn Sampler> {
-    current2(env, cs).0
+fn current(env: &Env, cs: &ClientState, e: usize) -> Arc<dyn Sampler> {
+    current2(env, cs, e).0
 }
 
 fn persist(s: &dyn Sampler, json: bool) -> Result<Durable, String> {
@@ -131,7 +153,16 @@ fn persist(s: &dyn Sampler, json: bool) -> Result<Durable, String> {
 
 /// Execute one operation.  Used identically by the reference execution and by
 /// the simulated callers.
-pub fn exec_op(env: &Env, cs: &mut ClientState, op: &Op, record_trace: bool, cap: u64) -> OpRecord {
+pub fn exec_op(envs: &[Arc<Env>], cs: &mut ClientState, op: &Op, record_trace: bool, cap: u64) -> OpRecord {
+    exec_on(envs, 0, cs, op, record_trace, cap)
+}
+
+fn exec_on(envs: &[Arc<Env>], e: usize, cs: &mut ClientState, op: &Op, record_trace: bool, cap: u64) -> OpRecord {
+    if let Op::Alt(inner) = op {
+        let e1 = if envs.len() > 1 { 1 } else { 0 };
+        return exec_on(envs, e1, cs, inner, record_trace, cap);
+    }
+    let env: &Env = &envs[e];
     let faults = match op {
         Op::Aborted { at, .. } => vec![Fault { at: *at, kind: FaultKind::Unwind }],
         _ => vec![],
@@ -140,7 +171,7 @@ pub fn exec_op(env: &Env, cs: &mut ClientState, op: &Op, record_trace: bool, cap
         let mut first: Option<OpRecord> = None;
         let mut total = 0u64;
         for i in 0..*n {
-            let r = exec_op(env, cs, inner, false, cap);
+            let r = exec_on(envs, e, cs, inner, false, cap);
             total += r.events;
             match &first {
                 None => first = Some(r),
@@ -176,36 +207,36 @@ pub fn exec_op(env: &Env, cs: &mut ClientState, op: &Op, record_trace: bool, cap
     }
     ctx::begin_op(faults, record_trace, cap);
     let mut aux = Vec::new();
-    let on_restored = current2(env, cs).1;
+    let on_restored = current2(env, cs, e).1;
     let outcome = match op {
         Op::SampleX { point, ed, st } | Op::Aborted { point, ed, st, .. } => {
-            let s = current(env, cs);
+            let s = current(env, cs, e);
             s.sample_x(point, ed, st)
         }
         Op::SampleRng { seed, kind, ed, st } => {
-            let s = current(env, cs);
+            let s = current(env, cs, e);
             let mut rng = SimRng::new(*seed, *kind);
             let o = s.sample_rng(&mut rng, ed, st);
             aux = vec![rng.native_draws, rng.calls[0], rng.calls[1], rng.calls[2]];
             o
         }
-        Op::Getters => current(env, cs).getters(),
+        Op::Getters => current(env, cs, e).getters(),
         Op::Build => match sampler::build(&env.spec) {
             Built::Ok(s) => {
                 let d = s.image().digest();
-                cs.local = Some((Arc::from(s), false));
+                cs.local[e] = Some((Arc::from(s), false));
                 Outcome::Image(d)
             }
             Built::Err(e) => Outcome::BuildErr(e),
             Built::Panicked(m) => Outcome::Panicked(m),
         },
         Op::CloneLocal => {
-            let (s, r) = current2(env, cs);
-            cs.local = Some((Arc::from(s.clone_box()), r));
+            let (s, r) = current2(env, cs, e);
+            cs.local[e] = Some((Arc::from(s.clone_box()), r));
             Outcome::Unit
         }
         Op::Persist { json } => {
-            let s = current(env, cs);
+            let s = current(env, cs, e);
             match persist(&*s, *json) {
                 Ok(d) => {
                     let h = match &d {
@@ -223,12 +254,12 @@ pub fn exec_op(env: &Env, cs: &mut ClientState, op: &Op, record_trace: bool, cap
             let dur = match have {
                 Some(d) => Ok(d),
                 None => {
-                    let s = current(env, cs);
+                    let s = current(env, cs, e);
                     persist(&*s, *json)
                 }
             };
             // the live object is gone: only the durable form survives
-            cs.local = None;
+            cs.local[e] = None;
             match dur {
                 Err(e) => Outcome::Err(format!("persist failed: {}", e)),
                 Ok(d) => {
@@ -245,15 +276,15 @@ pub fn exec_op(env: &Env, cs: &mut ClientState, op: &Op, record_trace: bool, cap
                                 *env.shared.lock().unwrap() = (s.clone(), true);
                                 *env.restarts_published.lock().unwrap() += 1;
                             }
-                            cs.local = Some((s, true));
+                            cs.local[e] = Some((s, true));
                             Outcome::Image(dig)
                         }
                     }
                 }
             }
         }
-        Op::ImageCheck => Outcome::Image(current(env, cs).image().digest()),
-        Op::Repeat { .. } => unreachable!(),
+        Op::ImageCheck => Outcome::Image(current(env, cs, e).image().digest()),
+        Op::Repeat { .. } | Op::Alt(_) => unreachable!(),
     };
     let st = ctx::end_op();
     OpRecord {
@@ -301,6 +332,7 @@ pub struct RunStats {
     pub nan_results: u64,
     pub ops_over_ref_events: u64,
     pub extreme_points: u64,
+    pub ops_on_second_sampler: u64,
 }
 
 pub struct RunReport {
@@ -398,12 +430,11 @@ fn reference(spec: &GraphSpec, refs: &Arc<dyn Sampler>, op: &Op) -> OpRecord {
 }
 
 fn reference_t(spec: &GraphSpec, refs: &Arc<dyn Sampler>, op: &Op, trace: bool) -> OpRecord {
-    let env = fresh_env(spec, refs.clone());
-    let mut cs = ClientState { local: None };
-    match op {
-        Op::Repeat { op: inner, .. } => exec_op(&env, &mut cs, inner, trace, u64::MAX),
-        _ => exec_op(&env, &mut cs, op, trace, u64::MAX),
-    }
+    let envs = vec![Arc::new(fresh_env(spec, refs.clone()))];
+    let mut cs = ClientState::new();
+    // wrappers removed: the reference of Repeat / Alt is the inner operation, once,
+    // on the pristine sampler of its own graph
+    exec_op(&envs, &mut cs, op.strip().1, trace, u64::MAX)
 }
 
 pub fn run_scenario(sc: &Scenario, opts: &RunOpts) -> RunReport {
@@ -414,32 +445,39 @@ pub fn run_scenario(sc: &Scenario, opts: &RunOpts) -> RunReport {
     // ---- reference execution (isolated, pass-through) -----------------------
     ctx::install(usize::MAX, None, PreemptPlan::default());
     hashkeys::reset(sc.ref_key_seed);
-    let refs: Arc<dyn Sampler> = match sampler::build(&sc.spec) {
-        Built::Ok(s) => Arc::from(s),
-        Built::Err(e) => {
-            ctx::uninstall();
-            return skipped(format!("reference build refused: {}", e.lines().next().unwrap_or("")));
+    let mut specs: Vec<&GraphSpec> = vec![&sc.spec];
+    if let Some(a) = &sc.alt {
+        specs.push(a);
+    }
+    let mut refs_v: Vec<Arc<dyn Sampler>> = Vec::new();
+    for sp in &specs {
+        match sampler::build(sp) {
+            Built::Ok(s) => refs_v.push(Arc::from(s)),
+            Built::Err(e) => {
+                ctx::uninstall();
+                return skipped(format!("reference build refused: {}", e.lines().next().unwrap_or("")));
+            }
+            Built::Panicked(m) => {
+                ctx::uninstall();
+                return skipped(format!("reference build panicked: {}", m));
+            }
         }
-        Built::Panicked(m) => {
-            ctx::uninstall();
-            return skipped(format!("reference build panicked: {}", m));
-        }
-    };
-    let ref_image = refs.image();
-    let ref_digest = ref_image.digest();
-    let dim = refs.dimension();
+    }
+    let ref_images: Vec<Tree> = refs_v.iter().map(|r| r.image()).collect();
+    let ref_digests: Vec<u64> = ref_images.iter().map(|t| t.digest()).collect();
+    let dims: Vec<usize> = refs_v.iter().map(|r| r.dimension()).collect();
+    let nenv = specs.len();
 
     let mut ref_out: Vec<Vec<OpRecord>> = Vec::new();
     let mut ref_trace: Option<Vec<ctx::Ev>> = None;
     for (ci, c) in sc.clients.iter().enumerate() {
         let mut v = Vec::new();
         for (oi, op) in c.ops.iter().enumerate() {
-            let inner = match op {
-                Op::Repeat { op, .. } => &**op,
-                o => o,
-            };
+            let (e0, inner) = op.strip();
+            let e = e0.min(nenv - 1);
+            let (spec_e, refs, ref_digest, dim) = (specs[e], &refs_v[e], ref_digests[e], dims[e]);
             let want_trace = opts.trace_op == Some((ci, oi));
-            let mut r = reference_t(&sc.spec, &refs, op, want_trace);
+            let mut r = reference_t(spec_e, refs, op, want_trace);
             if want_trace {
                 ref_trace = r.trace.take();
             }
@@ -464,7 +502,7 @@ pub fn run_scenario(sc: &Scenario, opts: &RunOpts) -> RunReport {
                 }
                 Op::SampleRng { seed, kind, ed, st } => {
                     let (pt, native) = expected_rng_point(*seed, *kind, dim);
-                    let x = reference(&sc.spec, &refs, &Op::SampleX { point: pt, ed: ed.clone(), st: st.clone() });
+                    let x = reference(spec_e, refs, &Op::SampleX { point: pt, ed: ed.clone(), st: st.clone() });
                     if !x.outcome.same(&r.outcome) {
                         violations.push(Violation {
                             class: "rng-sample-differs-from-x-space-sample".into(),
@@ -517,8 +555,8 @@ pub fn run_scenario(sc: &Scenario, opts: &RunOpts) -> RunReport {
                             }
                             let st2 = Settings { stab: st.stab, debug: d, meta: m };
                             let o = reference(
-                                &sc.spec,
-                                &refs,
+                                spec_e,
+                                refs,
                                 &Op::SampleX { point: point.clone(), ed: ed.clone(), st: st2 },
                             );
                             if !strip_meta(&o.outcome).same(&base) {
@@ -545,72 +583,80 @@ pub fn run_scenario(sc: &Scenario, opts: &RunOpts) -> RunReport {
         }
         ref_out.push(v);
     }
-    // the reference sampler itself must not have been modified by all that
-    if refs.image().digest() != ref_digest {
-        violations.push(Violation {
-            class: "sampler-modified-by-sampling".into(),
-            client: 0,
-            op: 0,
-            op_tag: "reference".into(),
-            expected: format!("image {:016x}", ref_digest),
-            observed: format!("image {:016x}", refs.image().digest()),
-        });
+    // the reference samplers themselves must not have been modified by all that
+    for e in 0..nenv {
+        if refs_v[e].image().digest() != ref_digests[e] {
+            violations.push(Violation {
+                class: "sampler-modified-by-sampling".into(),
+                client: 0,
+                op: 0,
+                op_tag: "reference".into(),
+                expected: format!("image {:016x}", ref_digests[e]),
+                observed: format!("image {:016x}", refs_v[e].image().digest()),
+            });
+        }
     }
     ctx::uninstall();
 
     // ---- the simulated run ----------------------------------------------------
     hashkeys::reset(sc.key_seed);
     ctx::install(usize::MAX, None, PreemptPlan::default());
-    let runs: Arc<dyn Sampler> = match sampler::build(&sc.spec) {
-        Built::Ok(s) => Arc::from(s),
-        _ => {
-            ctx::uninstall();
+    let mut runs_v: Vec<Arc<dyn Sampler>> = Vec::new();
+    for sp in &specs {
+        match sampler::build(sp) {
+            Built::Ok(s) => runs_v.push(Arc::from(s)),
+            _ => {
+                ctx::uninstall();
+                violations.push(Violation {
+                    class: "build-not-deterministic".into(),
+                    client: 0,
+                    op: 0,
+                    op_tag: "build".into(),
+                    expected: "Ok (as the reference build)".into(),
+                    observed: "Err/panic under a different hash-key stream".into(),
+                });
+                return RunReport {
+                    violations,
+                    harness_errors,
+                    digest: 0,
+                    results_digest: 0,
+                    switch_digest: 0,
+                    stats,
+                    skipped: None,
+                    sched: SchedSummary::default(),
+                    traces: None,
+                };
+            }
+        }
+    }
+    ctx::uninstall();
+    let images_before: Vec<Tree> = runs_v.iter().map(|r| r.image()).collect();
+    for e in 0..nenv {
+        if images_before[e].digest() != ref_digests[e] {
+            let mut p = String::from("sampler");
             violations.push(Violation {
                 class: "build-not-deterministic".into(),
                 client: 0,
                 op: 0,
                 op_tag: "build".into(),
-                expected: "Ok (as the reference build)".into(),
-                observed: "Err/panic under a different hash-key stream".into(),
+                expected: format!("image {:016x}", ref_digests[e]),
+                observed: format!(
+                    "image {:016x}; first difference: {}",
+                    images_before[e].digest(),
+                    ref_images[e].first_diff(&images_before[e], &mut p).unwrap_or_default()
+                ),
             });
-            return RunReport {
-                violations,
-                harness_errors,
-                digest: 0,
-                results_digest: 0,
-                switch_digest: 0,
-                stats,
-                skipped: None,
-                sched: SchedSummary::default(),
-                traces: None,
-            };
         }
-    };
-    ctx::uninstall();
-    let image_before = runs.image();
-    if image_before.digest() != ref_digest {
-        let mut p = String::from("sampler");
-        violations.push(Violation {
-            class: "build-not-deterministic".into(),
-            client: 0,
-            op: 0,
-            op_tag: "build".into(),
-            expected: format!("image {:016x}", ref_digest),
-            observed: format!(
-                "image {:016x}; first difference: {}",
-                image_before.digest(),
-                ref_image.first_diff(&image_before, &mut p).unwrap_or_default()
-            ),
-        });
     }
-    let env = Arc::new(fresh_env(&sc.spec, runs.clone()));
+    let envs: Arc<Vec<Arc<Env>>> =
+        Arc::new((0..nenv).map(|e| Arc::new(fresh_env(specs[e], runs_v[e].clone()))).collect());
     let n = sc.clients.len();
     let sched = Arc::new(Sched::new(n, sc.sched, sc.sched_seed, opts.stall_ms));
     let active_calls = Arc::new(std::sync::atomic::AtomicU64::new(0));
 
     let mut handles = Vec::new();
     for (tid, c) in sc.clients.iter().enumerate() {
-        let env = env.clone();
+        let envs = envs.clone();
         let sched = sched.clone();
         let ops = c.ops.clone();
         let plan = c.plan.clone();
@@ -623,18 +669,18 @@ pub fn run_scenario(sc: &Scenario, opts: &RunOpts) -> RunReport {
             .spawn(move || {
                 ctx::install(tid, Some(sched.clone()), plan);
                 sched.wait_turn(tid);
-                let mut cs = ClientState { local: None };
+                let mut cs = ClientState::new();
                 let mut recs = Vec::new();
                 let mut midcall = 0u64;
                 for (i, op) in ops.iter().enumerate() {
                     let inv = sched.stamp();
                     use std::sync::atomic::Ordering::SeqCst;
-                    let is_restart = matches!(op, Op::Restart { publish: true, .. });
+                    let is_restart = matches!(op.strip().1, Op::Restart { publish: true, .. });
                     if is_restart && active.load(SeqCst) > 0 {
                         midcall += 1;
                     }
                     active.fetch_add(1, SeqCst);
-                    let mut r = exec_op(&env, &mut cs, op, trace_op == Some((tid, i)), caps[i]);
+                    let mut r = exec_op(&envs, &mut cs, op, trace_op == Some((tid, i)), caps[i]);
                     active.fetch_sub(1, SeqCst);
                     r.invoke = inv;
                     r.ret = sched.stamp();
@@ -672,7 +718,7 @@ pub fn run_scenario(sc: &Scenario, opts: &RunOpts) -> RunReport {
     let ss = sched.summary();
     stats.switches = ss.switches;
     stats.offers = ss.offers;
-    stats.restarts_published = *env.restarts_published.lock().unwrap();
+    stats.restarts_published = envs.iter().map(|e| *e.restarts_published.lock().unwrap()).sum();
 
     // ---- oracle -----------------------------------------------------------------
     let mut digest = ss.digest;
@@ -683,20 +729,20 @@ pub fn run_scenario(sc: &Scenario, opts: &RunOpts) -> RunReport {
             // an injected unwind fires at a seam-event index, and event numbering
             // differs between build variants (hash-key / logger events): its own
             // outcome is not comparable across builds and is left out
-            if !matches!(&sc.clients[ci].ops[oi], Op::Aborted { .. }) {
+            if !matches!(sc.clients[ci].ops[oi].strip().1, Op::Aborted { .. }) {
                 results_digest = mix(mix(mix(results_digest, ci as u64), oi as u64), outcome_digest(&r.outcome));
             }
             let op = &sc.clients[ci].ops[oi];
-            if matches!(op, Op::Restart { .. }) {
+            if matches!(op.strip().1, Op::Restart { .. }) {
                 stats.restarts += 1;
+            }
+            if op.strip().0 == 1 {
+                stats.ops_on_second_sampler += 1;
             }
             classify(&mut stats, &r.outcome);
             digest = mix(digest, hash_str(&format!("{:?}", r.outcome)));
             let exp = &ref_out[ci][oi];
-            let inner = match op {
-                Op::Repeat { op, .. } => &**op,
-                o => o,
-            };
+            let inner = op.strip().1;
             if !exp.outcome.same(&r.outcome) {
                 let class = match inner {
                     Op::Restart { .. } => "restored-sampler-differs",
@@ -738,7 +784,12 @@ pub fn run_scenario(sc: &Scenario, opts: &RunOpts) -> RunReport {
     for (ci, recs) in all.iter().enumerate() {
         for (oi, r) in recs.iter().enumerate() {
             let op = &sc.clients[ci].ops[oi];
-            if !matches!(op, Op::SampleX { .. } | Op::Getters | Op::SampleRng { .. } | Op::ImageCheck) {
+            if !matches!(op, Op::SampleX { .. } | Op::Getters | Op::SampleRng { .. } | Op::ImageCheck | Op::Alt(_)) {
+                continue;
+            }
+            if !matches!(op.strip().1, Op::SampleX { .. } | Op::Getters | Op::SampleRng { .. } | Op::ImageCheck)
+                || matches!(op, Op::Alt(b) if matches!(**b, Op::Repeat { .. }))
+            {
                 continue;
             }
             if let Some((_, o, c0, o0)) = seen.iter().find(|(p, _, _, _)| *p == op) {
@@ -759,31 +810,37 @@ pub fn run_scenario(sc: &Scenario, opts: &RunOpts) -> RunReport {
     }
     // the shared sampler was never modified (unless a restart replaced the object,
     // in which case the replacement must have the same image anyway)
-    let image_after = env.shared.lock().unwrap().0.image();
-    if image_after.digest() != image_before.digest() {
-        let mut p = String::from("sampler");
-        violations.push(Violation {
-            class: "sampler-modified-by-sampling".into(),
-            client: 0,
-            op: 0,
-            op_tag: "shared".into(),
-            expected: format!("image {:016x}", image_before.digest()),
-            observed: format!(
-                "image {:016x}; first difference: {}",
-                image_after.digest(),
-                image_before.first_diff(&image_after, &mut p).unwrap_or_default()
-            ),
-        });
-    }
-    if runs.image().digest() != image_before.digest() {
-        violations.push(Violation {
-            class: "sampler-modified-by-sampling".into(),
-            client: 0,
-            op: 0,
-            op_tag: "original-object".into(),
-            expected: format!("image {:016x}", image_before.digest()),
-            observed: format!("image {:016x}", runs.image().digest()),
-        });
+    for e in 0..nenv {
+        let image_after = envs[e].shared.lock().unwrap().0.image();
+        if image_after.digest() != images_before[e].digest() {
+            let mut p = String::from("sampler");
+            violations.push(Violation {
+                class: if *envs[e].restarts_published.lock().unwrap() > 0 {
+                    "restored-sampler-differs".into()
+                } else {
+                    "sampler-modified-by-sampling".into()
+                },
+                client: 0,
+                op: 0,
+                op_tag: "shared".into(),
+                expected: format!("image {:016x}", images_before[e].digest()),
+                observed: format!(
+                    "image {:016x}; first difference: {}",
+                    image_after.digest(),
+                    images_before[e].first_diff(&image_after, &mut p).unwrap_or_default()
+                ),
+            });
+        }
+        if runs_v[e].image().digest() != images_before[e].digest() {
+            violations.push(Violation {
+                class: "sampler-modified-by-sampling".into(),
+                client: 0,
+                op: 0,
+                op_tag: "original-object".into(),
+                expected: format!("image {:016x}", images_before[e].digest()),
+                observed: format!("image {:016x}", runs_v[e].image().digest()),
+            });
+        }
     }
     digest = mix(digest, hash_u64s(&[stats.events, stats.hash_keys, stats.rng_draws]));
 
